@@ -192,19 +192,24 @@ struct Prog {
   void finish(uint64_t reloc_base, const std::vector<uint64_t>& vsizes, bool install = false) {
     // virtual sizes are applied right before flattening: they only space the sections apart
     for (size_t i = 0; i < secs.size(); i++) if (i < vsizes.size() && vsizes[i]) secs[i]->set_virtual_size(vsizes[i]);
-    Error e = code.flatten();
+    // codeholder.h: flatten() "should never be called more than once" - JitRuntime::add flattens, resolves, relocates and copies
+    // itself, so in install mode the harness must not flatten first; the events below then describe the state after _add.
+    static JitRuntime rt;
+    void* fn = nullptr;
+    Error add_err = Error::kOk;
+    Error e = Error::kOk;
+    if (install) add_err = rt._add(&fn, &code);
+    else e = code.flatten();
     w.beginObj().kv("e", "Flatten").kv("r", err_name(e));
     w.key("offs").beginArr();
     for (Section* s : code.sections()) { w.beginArr().val((long long)(s->offset() >> 20)).val((long long)(s->offset() & 0xFFFFF)).endArr(); }
     w.endArr().endObj().emit(out);
-    e = code.resolve_cross_section_fixups();
+    if (!install) e = code.resolve_cross_section_fixups();
     w.beginObj().kv("e", "Resolve").kv("r", err_name(e)).kv("unres", unres()).endObj().emit(out);
     bool installed = false, inst_equal = true;
     if (install) {
       // JitRuntime::add does flatten + resolve + relocate + copy itself; the base is whatever the allocator returns
-      static JitRuntime rt;
-      void* fn = nullptr;
-      e = rt._add(&fn, &code);
+      e = add_err;
       reloc_base = uint64_t(uintptr_t(fn));
       if (e == Error::kOk) {
         installed = true;
